@@ -10,10 +10,12 @@ def items(tier):
     maxL = 3 if tier == "quick" else 4
     for p, strat, tags in corpus.entries(tier, tag="cap"):
         a = alpha_for(p)
-        for L in range(0, maxL + 1):
+        for L in corpus.lengths(tags, tier, maxL):
             out.append(mk("C03", p, "FindSubmatchIndex", L, a, strategy=strat))
         for api in ["FindStringSubmatchIndex", "FindSubmatch", "FindStringSubmatch"]:
             out.append(mk("C03", p, api, 2, a, strategy=strat))
+        for pre, post in corpus.windows(p):
+            out.append(mk("C03", p, "FindSubmatchIndex", 3, a, strategy=strat, pre=pre, post=post))
     return out
 
 
